@@ -307,6 +307,17 @@ def derename(trees):
                     mmap[c[0]] = m
                     cur[c[0]].name = m
                     notes.append(f'{cq}: method {c[0]} is the inventory method {m}')
+            # second chance, by signature: exactly one inventory method of the class is still missing, exactly one unknown private
+            # method is left, and it takes the parameters the inventory recorded for the missing one (a method renamed AND edited -
+            # a statement moved to / from its caller): it is read under the inventory name, the expanded view does the rest
+            still = [m for m in missing if m not in mmap.values()]
+            left = [n for n in new if n not in mmap]
+            if len(still) == 1 and len(left) == 1:
+                inv_params = PARAMS.get(f'{cq}.{still[0]}')
+                if inv_params and [a.arg for a in cur[left[0]].args.args] == list(inv_params) and len(inv_params) >= 3:
+                    mmap[left[0]] = still[0]
+                    cur[left[0]].name = still[0]
+                    notes.append(f'{cq}: method {left[0]} has the parameters of the missing inventory method {still[0]}: read under that name')
     if mmap:
         for tree in trees.values():
             _AttrRename(mmap).visit(tree)
